@@ -499,3 +499,198 @@ def r_alias(ctx) -> RuleResult:
         raise AnalysisError(f"R-ALIAS: only {n} per-atom / per-bond dictionary insertions recognised (idiom changed)")
     res.counts = {"insertion_sites": n}
     return res
+
+
+# --------------------------------------------------------------------------- R-REJECT
+
+
+def _guard_tests(fnode, target) -> list:
+    """tests that decide whether `target` is executed: those of the enclosing if / while statements and those of earlier
+    statements of the same blocks that leave (return / continue / break / raise) when they hold"""
+    out = []
+
+    def leaves(body):
+        return bool(body) and isinstance(body[-1], (ast.Return, ast.Continue, ast.Break, ast.Raise))
+
+    def walk(stmts):
+        for i, st in enumerate(stmts):
+            if st is target or any(x is target for x in ast.walk(st)):
+                for prev in stmts[:i]:
+                    if isinstance(prev, ast.If) and (leaves(prev.body) or leaves(prev.orelse)):
+                        out.append(prev.test)
+                if isinstance(st, (ast.If, ast.While)):
+                    out.append(st.test)
+                if isinstance(st, ast.Match):
+                    out.append(st.subject)
+                for fld in ("body", "orelse", "finalbody", "handlers", "cases"):
+                    sub = getattr(st, fld, None)
+                    if isinstance(sub, list):
+                        for b_ in sub:
+                            if isinstance(b_, (ast.ExceptHandler, ast.match_case)) and any(x is target for x in ast.walk(b_)):
+                                if isinstance(b_, ast.ExceptHandler):
+                                    out.append(("except", st, b_))
+                                walk(b_.body)
+                                return
+                        if any(x is target for b_ in sub if isinstance(b_, ast.stmt) for x in ast.walk(b_)):
+                            walk([b_ for b_ in sub if isinstance(b_, ast.stmt)])
+                            return
+                return
+    walk(fnode.body)
+    return out
+
+
+@rule("R-REJECT")
+def r_reject(ctx) -> RuleResult:
+    res = RuleResult("R-REJECT", "the TUCAN parser rejects a grammatical string only for a missing atom index, a self-bond or a repeated attribute key: every raise in its own code is decided by indices / sizes, by the two end points of a bond, or by the key being set; none looks at attribute values, elements or counts")
+    from ..origin import Map, OriginTyper, S, Seq, tags
+    repo = ctx.repo
+    lis = _listener_impl(ctx)
+    exc = _parser_exception(ctx)
+    free = [f for f in closure(ctx, "parse") if f.module.name == lis.module.name and f.cls is None]
+    ent = entry(ctx, "parse")
+    if ent not in free:
+        free.append(ent)
+    ot = OriginTyper(repo, lis, free)
+    fis = list(lis.methods.values()) + free
+    err_listeners = [ci for ci in lis.module.classes.values() if any(b.endswith("ErrorListener") for b in repo.base_names(ci))]
+    seen_kinds = set()
+    n_sites = 0
+
+    def classify(f, node, depth=0):
+        """-> (kind, detail); kind in INDEX / SELFBOND / DUPKEY / VALUE / KEYCONST / UNCOND / UNKNOWN"""
+        tests = _guard_tests(f.node, node)
+        if not tests:
+            return "UNCOND", ""
+        g = set()
+        notes = []
+        selfbond = False
+        dupkey = False
+        keyconst = None
+        for t in tests:
+            if isinstance(t, tuple) and t[0] == "except":
+                # raise in an exception handler: what the guarded block looks up decides
+                _, trystmt, _h = t
+                for x in ast.walk(ast.Module(trystmt.body, [])):
+                    if isinstance(x, ast.Subscript):
+                        g |= set(tags(ot.guard_leaf(f, x.value))) | set(tags(ot.ty(f, x.slice)))
+                    elif isinstance(x, ast.Call) and isinstance(x.func, ast.Name) and x.func.id == "int":
+                        g |= {"?"}
+                continue
+            for c in ast.walk(t):
+                if isinstance(c, ast.Compare) and len(c.ops) == 1:
+                    l_, r_ = c.left, c.comparators[0]
+                    tl, tr = ot.ty(f, l_), ot.ty(f, r_)
+                    if isinstance(c.ops[0], (ast.Eq, ast.NotEq)) and tags(tl) - {"const"} == {"idx"} and tags(tr) - {"const"} == {"idx"} and isinstance(tl, S) and isinstance(tr, S):
+                        selfbond = True
+                    if isinstance(c.ops[0], (ast.In, ast.NotIn)) and isinstance(tr, Map) and not (tags(tr.k) - {"key", "const"}) and ("val" in tags(tr.v) or not tags(tr.v)):
+                        if "key" in tags(tl):
+                            dupkey = True
+                        elif tags(tl) <= {"const"}:
+                            keyconst = short(c, 50)
+                if isinstance(c, ast.Call) and isinstance(c.func, ast.Attribute) and c.func.attr == "get" and c.args:
+                    tr = ot.ty(f, c.func.value)
+                    if isinstance(tr, Map) and not (tags(tr.k) - {"key", "const"}) and "key" in tags(ot.ty(f, c.args[0])):
+                        dupkey = True
+            # leaves of the test
+            for leaf in _leaves(t):
+                lt = ot.guard_leaf(f, leaf)
+                g |= set(tags(lt))
+                notes.append(f"{short(leaf, 25)}: {','.join(sorted(tags(lt))) or '-'}")
+        g.discard("const")
+        detail = "; ".join(dict.fromkeys(notes))[:200]
+        if g & {"val", "elem", "fml"} and not (dupkey and not (g & {"elem", "fml"}) and _only_membership(tests)):
+            if "idx" in g and not (g & {"val", "elem"}) and g <= {"idx", "cnt", "fml"}:
+                return "INDEX", detail
+            return "VALUE", detail
+        if keyconst and not dupkey:
+            return "KEYCONST", keyconst
+        if "?" in g or "ctx" in g or "graph" in g:
+            return "UNKNOWN", detail
+        if selfbond and g <= {"idx"}:
+            return "SELFBOND", detail
+        if dupkey:
+            return "DUPKEY", detail
+        if "idx" in g and g <= {"idx", "cnt"}:
+            return "INDEX", detail
+        if not g:
+            return "UNKNOWN", detail or "the test reads nothing this analysis can name"
+        return "UNKNOWN", detail
+
+    def _only_membership(tests):
+        for t in tests:
+            if isinstance(t, tuple):
+                return False
+            for c in ast.walk(t):
+                if isinstance(c, ast.Subscript):
+                    return False
+                if isinstance(c, ast.Compare) and not all(isinstance(o, (ast.In, ast.NotIn, ast.Is, ast.IsNot)) for o in c.ops):
+                    return False
+        return True
+
+    def _leaves(t):
+        """operand expressions of a test (names, attributes, subscripts, calls) below boolean operators and comparisons"""
+        if isinstance(t, ast.BoolOp):
+            for v in t.values:
+                yield from _leaves(v)
+        elif isinstance(t, ast.UnaryOp):
+            yield from _leaves(t.operand)
+        elif isinstance(t, ast.Compare):
+            for v in [t.left] + list(t.comparators):
+                yield from _leaves(v)
+        elif isinstance(t, ast.BinOp):
+            yield from _leaves(t.left)
+            yield from _leaves(t.right)
+        elif isinstance(t, ast.NamedExpr):
+            yield from _leaves(t.value)
+        elif isinstance(t, ast.Constant):
+            return
+        else:
+            yield t
+
+    def raise_sites(f, depth=0, via=None):
+        """(function, node, label) of every statement in f that raises: raise statements, and calls of helpers that always raise"""
+        for n in own_walk(f.node):
+            if isinstance(n, ast.Raise):
+                yield f, n, short(n, 60)
+            elif isinstance(n, ast.Call) and depth < 2:
+                tgt = None
+                if isinstance(n.func, ast.Attribute) and isinstance(n.func.value, ast.Name) and n.func.value.id == "self" and n.func.attr in lis.methods:
+                    tgt = lis.methods[n.func.attr]
+                elif isinstance(n.func, ast.Name):
+                    tgt = next((x for x in free if x.name == n.func.id), None)
+                if tgt is not None and tgt is not f and _always_raises(ctx, tgt, exc)[0] and not _guard_tests(tgt.node, next((r for r in own_walk(tgt.node) if isinstance(r, ast.Raise)), None) or tgt.node):
+                    yield f, n, f"call of {tgt.name} (always raises)"
+
+    for f in fis:
+        if f.cls is not None and f.cls in err_listeners:
+            continue
+        for f_, n, label in raise_sites(f):
+            # a helper that always raises is judged where it is called
+            if isinstance(n, ast.Raise) and not _guard_tests(f.node, n) and _always_raises(ctx, f, exc)[0]:
+                continue
+            n_sites += 1
+            kind, detail = classify(f_, n)
+            if kind == "UNCOND":
+                raise AnalysisError(f"R-REJECT: `{label}` in {f.qualname} is not under any test this analysis reads")
+            if kind == "UNKNOWN":
+                raise AnalysisError(f"R-REJECT: cannot tell what decides `{label}` in {f.qualname} ({detail})")
+            ok = kind in ("INDEX", "SELFBOND", "DUPKEY")
+            seen_kinds.add(kind)
+            res.inst(f.fq, f"`{label}` is decided by {kind.lower()}", "ok" if ok else "fail", detail=detail)
+            if not ok:
+                what = "the value of an attribute, the element or the count of an atom" if kind == "VALUE" else f"which attribute is present (`{detail}`)"
+                res.fail(Finding("R-REJECT", f.module.rel, f.qualname, norm(n)[:120],
+                                 f"this rejection depends on {what}: strings of the grammar with existing indices, no self-bond and no repeated key are refused ({detail})", line=n.lineno))
+    for ci in err_listeners:
+        for m in ci.methods.values():
+            if any(isinstance(x, ast.Raise) for x in own_walk(m.node)):
+                res.inst(m.fq, "raise in a syntax-error listener (syntax errors)", "ok")
+    for kind, what in (("SELFBOND", "a bond of an atom with itself"), ("INDEX", "an index that names no atom"), ("DUPKEY", "an attribute key set twice on one atom")):
+        ok = kind in seen_kinds
+        res.inst(lis.fq, f"some raise is decided by {kind.lower()}", "ok" if ok else "fail")
+        if not ok:
+            res.fail(Finding("R-REJECT", lis.module.rel, lis.name, f"no rejection of {what}", f"no raise in the parser's own code is decided by {kind.lower()}: {what} is accepted", line=lis.node.lineno))
+    if n_sites < 3:
+        raise AnalysisError(f"R-REJECT: only {n_sites} raise sites found in the parser's own code")
+    res.counts = {"raise_sites": n_sites, "kinds": sorted(seen_kinds)}
+    return res
